@@ -3,6 +3,7 @@ package c11
 
 import (
 	"fmt"
+	"github.com/sdcio/yang-parser/compile"
 	"os"
 	"strings"
 	"testing"
@@ -19,12 +20,14 @@ type Case struct {
 	Mods   []*sg.Mod `json:"mods"`
 	Defect string    `json:"defect,omitempty"`
 	Reps   int       `json:"reps"`
+	Feat   string    `json:"feat,omitempty"` // feature configuration of the compile: "" all enabled, "none", "some"
 }
 
 var defects = []string{"import-cycle", "import-self", "include-cycle", "typedef-cycle-used", "typedef-cycle-unused", "typedef-self",
 	"grouping-cycle-direct", "grouping-cycle-nested", "grouping-cycle-unused", "grouping-cycle-via-choice", "identity-cycle", "identity-self", "feature-cycle", "feature-self",
 	"dangling-import", "dangling-include", "dangling-type", "dangling-uses", "dangling-base", "dangling-if-feature", "dangling-prefix", "belongs-to-missing",
-	"typedef-cycle-cross-scope", "grouping-cycle-long", "grouping-cycle-via-uses-augment", "grouping-cycle-via-uses-augment-nested"}
+	"typedef-cycle-cross-scope", "grouping-cycle-long", "grouping-cycle-via-uses-augment", "grouping-cycle-via-uses-augment-nested",
+	"feature-cycle-second", "dangling-if-feature-second"}
 
 func str(s string) *sg.TypeSpec { return &sg.TypeSpec{Name: s} }
 
@@ -128,6 +131,13 @@ func inject(mods []*sg.Mod, d string, pick func(n int) int) {
 		m.Identities = append(m.Identities, &sg.Identity{Name: "cyc-ia", Base: ref("cyc-ia")})
 	case "feature-cycle":
 		m.Features = append(m.Features, &sg.Feature{Name: "cyc-fa", IfFeatures: []string{ref("cyc-fb")}}, &sg.Feature{Name: "cyc-fb", IfFeatures: []string{ref("cyc-fa")}})
+	case "feature-cycle-second":
+		// the cycle closes through the SECOND if-feature of a feature; the first one names an ordinary feature that
+		// may be disabled in the configuration the set is compiled with
+		m.Features = append(m.Features, &sg.Feature{Name: "cyc-f0"}, &sg.Feature{Name: "cyc-fa", IfFeatures: []string{ref("cyc-f0"), ref("cyc-fb")}},
+			&sg.Feature{Name: "cyc-fb", IfFeatures: []string{ref("cyc-fa")}})
+	case "dangling-if-feature-second":
+		m.Features = append(m.Features, &sg.Feature{Name: "cyc-f0"}, &sg.Feature{Name: "cyc-fa", IfFeatures: []string{ref("cyc-f0"), "no-such-feature"}})
 	case "feature-self":
 		m.Features = append(m.Features, &sg.Feature{Name: "cyc-fa", IfFeatures: []string{ref("cyc-fa")}})
 	case "dangling-import":
@@ -172,7 +182,7 @@ func extraMods(c Case) []*sg.Mod {
 
 func genCase(t *rapid.T) Case {
 	g := &sg.G{T: t, Cfg: sg.GenCfg{ConfigFalse: true}}
-	c := Case{Mods: g.GenSet(), Reps: 4}
+	c := Case{Mods: g.GenSet(), Reps: 4, Feat: []string{"", "", "none", "some"}[g.Pick(4, "featcfg")]}
 	if fw.Thorough() {
 		c.Reps = 8
 	}
@@ -245,7 +255,26 @@ func checkCase(c Case) fw.Outcome {
 				order[i], order[j] = order[j], order[i]
 			}
 		}
-		res := sgc.CompileTexts(names, texts, sgc.Opts{Order: order, Features: sgc.AllFeatures{}, Separate: r%3 == 2})
+		var feats compile.FeaturesChecker = sgc.AllFeatures{}
+		switch c.Feat {
+		case "none":
+			feats = sgc.FeatureSet{}
+		case "some":
+			fs := sgc.FeatureSet{}
+			for _, m := range mods {
+				for i, f := range m.Features {
+					if (i+len(f.Name))%2 == 0 {
+						owner := m.Name
+						if m.BelongsTo != "" {
+							owner = m.BelongsTo
+						}
+						fs[owner+":"+f.Name] = true
+					}
+				}
+			}
+			feats = fs
+		}
+		res := sgc.CompileTexts(names, texts, sgc.Opts{Order: order, Features: feats, Separate: r%3 == 2})
 		if res.Hang || res.Panic != "" {
 			out.Violation = fmt.Sprintf("compilation is not total (%s)\nmodules:\n%s", res.Describe(), out.Key)
 			return out
@@ -276,7 +305,10 @@ func checkCase(c Case) fw.Outcome {
 	} else {
 		out.Labels = append(out.Labels, "rejected")
 	}
-	if c.Defect != "" && firstOK {
+	// cycles are errors under every feature configuration; a dangling reference (an addition of this check, the property
+	// names cycles only) sits on a node that a disabled feature may remove before anything resolves it
+	mustReject := c.Defect != "" && (c.Feat == "" || strings.Contains(c.Defect, "cycle") || strings.Contains(c.Defect, "self"))
+	if mustReject && firstOK {
 		out.Violation = fmt.Sprintf("a module set with an injected %s compiles without error\nmodules:\n%s", c.Defect, out.Key)
 	}
 	if c.Defect == "" && !firstOK {
